@@ -90,7 +90,7 @@ def crossable(spec_factors, derived):
 @st.composite
 def constraint(draw, c, spec, T, design, kinds=None):
     kinds = kinds or c["constraints"]
-    weighted = [k for k in kinds for _ in range(KIND_WEIGHT.get(k, 1))]
+    weighted = [k for k in kinds for _ in range(c.get("kind_weight", KIND_WEIGHT).get(k, 1))]
     kind = draw(st.sampled_from(weighted))
     T = max(1, T or 1)
     if kind == "min":
@@ -154,6 +154,68 @@ def leaf_block(draw, c, factors, derived, multi=False):
     return b
 
 
+def _leaf_T(spec, leaf):
+    return estimate_T(dict(spec, block=leaf))
+
+
+@st.composite
+def _plain_leaf(draw, c, spec, names, cand, exclude_from_crossing=()):
+    pool = [n for n in cand if n not in exclude_from_crossing]
+    if not pool:
+        return None
+    k = draw(st.integers(1, min(c["max_crossing"], len(pool))))
+    crossing = list(draw(st.permutations(pool))[:k])
+    leaf = {"type": "cross", "design": list(names), "crossing": crossing, "constraints": [], "rcc": not (c["rcc_false"] and draw(st.booleans()))}
+    T = _leaf_T(spec, leaf)
+    for _ in range(draw(st.integers(c.get("min_leaf_constraints", 0), c.get("max_leaf_constraints", 1)))):
+        leaf["constraints"].append(draw(constraint(c, dict(spec, block=leaf), T, names, kinds=tuple(k2 for k2 in c["constraints"] if k2 != "min"))))
+    return leaf
+
+
+@st.composite
+def combinator_block(draw, c, spec, kind):
+    """Repeat / Merge / Nest over plain CrossBlocks (depth 2 for Nest when c['nest_depth'] >= 2)"""
+    factors, derived = spec["factors"], spec["derived"]
+    names = [f["name"] for f in factors] + [d["name"] for d in derived]
+    cand = crossable(factors, derived)
+    no_excl = tuple(k for k in c["constraints"] if k not in ("exclude", "min"))
+    first = draw(_plain_leaf(c, spec, names, cand))
+    T1 = _leaf_T(spec, first) or 2
+    if kind == "repeat":
+        cs = []
+        if draw(st.integers(0, 5)):
+            cs.append({"kind": "min", "k": draw(st.sampled_from([T1 + 1, 2 * T1 - 1, 2 * T1, 2 * T1 + 1, 3 * T1]))})
+        tmp = {"type": "repeat", "block": first, "constraints": list(cs)}
+        for _ in range(draw(st.integers(0, 1))):
+            if no_excl:
+                cs.append(draw(constraint(c, dict(spec, block=first), 2 * T1, names, kinds=no_excl)))
+        return {"type": "repeat", "block": first, "constraints": cs}
+    second = draw(_plain_leaf(c, spec, names, cand, exclude_from_crossing=first["crossing"]))
+    if second is None:
+        return first
+    all_kinds = tuple(k for k in c["constraints"])
+    if kind == "merge":
+        T2 = _leaf_T(spec, second) or 2
+        cs = [draw(constraint(c, dict(spec, block=first), max(T1, T2), names, kinds=all_kinds)) for _ in range(draw(st.integers(0, 1)))]
+        return {"type": "merge", "blocks": [first, second], "constraints": cs,
+                "mode": draw(st.sampled_from(["repeat", "weight", "repeat", "weight", "equal"])),
+                "alignment": draw(st.sampled_from([None, None, "equal preamble", "post preamble", "parallel start"]))}
+    T2 = _leaf_T(spec, second) or 2
+    inner = second
+    # constraints other than Exclude on the OUTER block of a Nest are ambiguous in the documentation (DESIGN.md 4.4)
+    first["constraints"] = [x for x in first["constraints"] if x["kind"] == "exclude"]
+    if c.get("nest_depth", 1) >= 2 and draw(st.integers(0, 2)) == 0:
+        third = draw(_plain_leaf(c, spec, names, cand, exclude_from_crossing=list(first["crossing"]) + list(second["crossing"])))
+        if third is not None:
+            if draw(st.booleans()):
+                inner = {"type": "nest", "outer": second, "inner": third, "constraints": [], "alignment": None}
+            else:
+                first = {"type": "nest", "outer": first, "inner": second, "constraints": [], "alignment": None}
+                inner = third
+    cs = [draw(constraint(c, dict(spec, block=second), T1 * T2, names, kinds=all_kinds)) for _ in range(draw(st.integers(0, 1)))]
+    return {"type": "nest", "outer": first, "inner": inner, "constraints": cs, "alignment": None}
+
+
 @st.composite
 def design_spec(draw, c=None):
     c = c or DEFAULT
@@ -161,6 +223,11 @@ def design_spec(draw, c=None):
     derived = draw(derived_factors(c, factors))
     spec = {"factors": factors, "derived": derived}
     kind = draw(st.sampled_from(c["blocks"]))
+    if kind in ("repeat", "merge", "nest"):
+        spec["block"] = draw(combinator_block(c, spec, kind))
+        if c.get("aux"):
+            spec["aux"] = draw(st.integers(0, 2 ** 30))
+        return spec
     b = draw(leaf_block(c, factors, derived, multi=(kind == "multi")))
     spec["block"] = b
     T = estimate_T(spec)
